@@ -745,12 +745,12 @@ def build_plan(tier, seed):
                         ("i16", list(range(-20, 280))), ("u16", [x for x in range(0, 310) if x != 100]),
                         ("i16", [-300, -299, -100, -1, 0, 1, 7, 20, 21, 22, 100, 1000, 1001, 5000, 5002, 5004, 32767])])
     else:
-        pl.shapes(prim.REPRS, per_repr_small=None, per_repr_large=400, kappas_per_shape=3)
+        pl.shapes(prim.REPRS, per_repr_small=None, per_repr_large=200, kappas_per_shape=3)
         pl.full_paths()
         pl.config_matrix(n_sparse=60)
         pl.sorted_cfgs(60)
-        pl.perms_reprs(300)
-        pl.spellings(300)
+        pl.perms_reprs(150)
+        pl.spellings(200)
         pl.contexts()
         pl.contexts_on_shapes(prim.REPRS, 10)
         pl.renamed()
